@@ -26,6 +26,8 @@ def concerns(ev, verdict):
             s.add("C04")
         if p.startswith("denote-") or p.startswith("json-"):
             s.add("C11")
+        if p in ("registry-visibility", "valid-registration-rejected", "invalid-name-accepted"):
+            s.add("C20")
         if p in ("input-modified", "binds-modified"):
             s.add("C07")
         elif p in ("ast-modified", "string-changed", "not-repeatable", "history-dependent"):
